@@ -1,6 +1,10 @@
 import Driver.SliceOps
+import Driver.Cache
+import Driver.VE
 
 def main (args : List String) : IO UInt32 := do
   match args with
   | ["sliceops"] => Driver.SliceOps.main; return 0
+  | ["cache"] => Driver.Cache.main; return 0
+  | ["ve"] => Driver.VE.main; return 0
   | _ => IO.eprintln "usage: tvdriver <component> < trace"; return 2
